@@ -536,7 +536,11 @@ class _StandardGumbel(AbstractDistribution):
     cond_shape: ClassVar[None] = None
 
     def _log_prob(self, x, condition=None):
-        return -(x + jnp.exp(-x)).sum()
+        # Where exp(-x) overflows the log density is -inf: give it a zero (not infinite)
+        # gradient, to avoid nan gradients e.g. for mixture components far from x.
+        overflow = jnp.isinf(jnp.exp(-x))
+        x = jnp.where(overflow, 0, x)
+        return jnp.where(overflow, -jnp.inf, -(x + jnp.exp(-x))).sum()
 
     def _sample(self, key, condition=None):
         return jr.gumbel(key, shape=self.shape)
